@@ -97,3 +97,30 @@ CORPUS += [
     V("C06", "eq-cvrp-checker-move-eps", R + "cvrp/env.py", 'used_cap <= td["vehicle_capacity"] + 1e-5', 'used_cap - 1e-5 <= td["vehicle_capacity"]', None),
     V("C06", "eq-mtvrp-rename", R + "mtvrp/env.py", "curr_time", "clock", None, count=99),
 ]
+
+S_ = "rl4co/envs/scheduling/"
+CORPUS += [
+    # ---------------------------------------------------------------- C02
+    V("C02", "cvrp-depot-no-exists-guard", R + "cvrp/env.py", 'mask_depot = (td["current_node"] == 0) & ((mask_loc == 0).int().sum(-1) > 0)[\n            :, None\n        ]', 'mask_depot = (td["current_node"] == 0)', "C02.b"),
+    V("C02", "op-depot-not-reopened", R + "op/env.py", "        action_mask[..., 0] = 1\n", "", "C02.b"),
+    V("C02", "mtsp-no-reopen-when-done", R + "mtsp/env.py", "        available[..., 0] = torch.logical_or(done, available[..., 0])\n", "", "C02.b"),
+    V("C02", "mdcpdp-no-done-reopen", R + "mdcpdp/env.py", "action_mask[..., :num_depot].gather(-1, current_depot) | done,", "action_mask[..., :num_depot].gather(-1, current_depot),", "C02.b"),
+    V("C02", "fjsp-noop-not-open-when-done", S_ + "fjsp/env.py", "            ) | td[\"done\"]\n", "            )\n", "C02.b"),
+    V("C02", "mtvrp-depot-always-blocked-at-depot", R + "mtvrp/env.py", "can_visit[:, 0] = ~((curr_node == 0) & (can_visit[:, 1:].sum(-1) > 0))", "can_visit[:, 0] = ~(curr_node == 0)", "C02.b"),
+    V("C02", "pctsp-depot-guard-dropped", R + "pctsp/env.py", '''        mask[..., 0] = (td["cur_total_prize"] < 1.0) & (
+            td["visited"][..., 1:].int().sum(-1) < td["visited"][..., 1:].size(-1)
+        )''', '''        mask[..., 0] = (td["cur_total_prize"] < 1.0)''', "C02.b"),
+    V("C02", "cvrp-done-from-old-visited", R + "cvrp/env.py", "done = visited.sum(-1) == visited.size(-1)", 'done = td["visited"].sum(-1) == td["visited"].size(-1)', "C02.c"),
+    V("C02", "tsp-done-from-old-mask", R + "tsp/env.py", "done = torch.sum(available, dim=-1) == 0", 'done = torch.sum(td["action_mask"], dim=-1) == 0', "C02.c"),
+    V("C02", "op-done-post-increment", R + "op/env.py", 'done = (current_node.squeeze(-1) == 0) & (td["i"] > 0)', 'done = (current_node.squeeze(-1) == 0)', "C02.c"),
+    V("C02", "flp-done-off-by-one", "rl4co/envs/graph/flp/env.py", 'done = td["i"] >= (td["to_choose"] - 1)', 'done = td["i"] >= td["to_choose"]', "C02.c"),
+    V("C02", "cvrp-visited-reset", R + "cvrp/env.py", 'visited = td["visited"].scatter(-1, current_node, 1)', 'visited = torch.zeros_like(td["visited"]).scatter(-1, current_node, 1)', "C02.a"),
+    V("C02", "fjsp-loop-no-mask-refresh", S_ + "fjsp/env.py", '''            td, dones = self._transit_to_next_time(step_complete, td)
+            td.set("action_mask", self.get_action_mask(td))''', '''            td, dones = self._transit_to_next_time(step_complete, td)''', "C02.d"),
+    V("C02", "sdvrp-done-from-old-demand", R + "sdvrp/env.py", "done = ~(demand_with_depot > 0).any(-1)", 'done = ~(td["demand_with_depot"] > 0).any(-1)', "C02.c"),
+    V("C02", "decode-loop-no-cap", "rl4co/models/common/constructive/base.py", "            if step > max_steps:", "            if False:", "C02.e"),
+    # equivalents
+    V("C02", "eq-cvrp-exists-any", R + "cvrp/env.py", "((mask_loc == 0).int().sum(-1) > 0)", "((mask_loc == 0).any(-1))", None),
+    V("C02", "eq-cvrp-done-all", R + "cvrp/env.py", "done = visited.sum(-1) == visited.size(-1)", "done = visited.bool().all(-1)", None),
+    V("C02", "eq-mtsp-or-operator", R + "mtsp/env.py", "available[..., 0] = torch.logical_or(done, available[..., 0])", "available[..., 0] = done | available[..., 0]", None),
+]
